@@ -171,6 +171,71 @@ theorem resolveEx_spec (env : Env) (maxDepth : Int) :
          · have := (hrec ‹String›).1; simp only; omega
          · exact (hrec ‹String›).2)
 
+
+theorem publicKey_sites (fn : String) (hfn : fn = "ResolveKeyByID" ∨ fn = "ResolveKey") (r : Rel) (s : String)
+    (h : publicKey fn r = .panic s) : s ∈ Resolver.sites.map (·.2) := by
+  unfold publicKey at h
+  split at h
+  · simp at h
+  · simp at h
+  · cases h
+    rcases hfn with rfl | rfl <;> decide
+
+theorem baseUrl_sites (c : Cfg) (ctx : List J) (s : String) (h : baseUrl c ctx = .panic s) : s ∈ Resolver.sites.map (·.2) := by
+  induction ctx with
+  | nil => simp [baseUrl] at h
+  | cons x rest ih =>
+    cases x with
+    | obj kvs =>
+      unfold baseUrl at h
+      split at h
+      · exact ih h
+      · simp at h
+      · split at h
+        · exact ih h
+        · cases h; decide
+    | _ => unfold baseUrl at h; exact ih h
+
+theorem findKey_sites (c : Cfg) (keyID : String) (base : Option String) (l : List Rel) (s : String)
+    (h : findKey c keyID base l = .panic s) : s ∈ Resolver.sites.map (·.2) := by
+  induction l with
+  | nil => simp [findKey] at h
+  | cons r rest ih =>
+    unfold findKey at h
+    repeat' split at h
+    all_goals first
+      | exact ih h
+      | exact publicKey_sites _ (Or.inl rfl) _ _ h
+      | (cases h; decide)
+
+theorem firstKey_sites (c : Cfg) (l : List Rel) (s : String) (h : firstKey c l = .panic s) : s ∈ Resolver.sites.map (·.2) := by
+  induction l with
+  | nil => simp [firstKey] at h
+  | cons r rest ih =>
+    unfold firstKey at h
+    repeat' split at h
+    all_goals first
+      | exact ih h
+      | exact publicKey_sites _ (Or.inr rfl) _ _ h
+      | (cases h; decide)
+
+theorem resolveKeyByID_sites (c : Cfg) (keyID : String) (didOk : Bool) (doc : Option KeyDoc) (rt : Nat) (s : String)
+    (h : resolveKeyByID c keyID didOk doc rt = .panic s) : s ∈ Resolver.sites.map (·.2) := by
+  unfold resolveKeyByID at h
+  repeat' split at h
+  all_goals first
+    | (cases h; done)
+    | (cases h; rename_i hb; exact baseUrl_sites _ _ _ hb)
+    | exact findKey_sites _ _ _ _ _ h
+
+theorem resolveKey_sites (c : Cfg) (doc : Option KeyDoc) (rt : Nat) (s : String)
+    (h : resolveKey c doc rt = .panic s) : s ∈ Resolver.sites.map (·.2) := by
+  unfold resolveKey at h
+  repeat' split at h
+  all_goals first
+    | (cases h; done)
+    | exact firstKey_sites _ _ _ h
+
 end ResolverLemmas
 
 section BitstringLemmas
@@ -738,6 +803,160 @@ theorem chainOld_zero_buckets_panics (H : Hash) (k : Nat) (hk : 0 < k) (fuel : N
   unfold chainOld
   have h1 : ¬ (([] : List Nat).length ≥ k) := by simp; omega
   rw [if_neg h1]; simp
+
+
+theorem addIndex_length_le (ind : List Nat) (b : Nat) : (addIndex ind b).length ≤ ind.length + 1 := by
+  unfold addIndex; split <;> simp
+
+theorem addIndex_mem_self (ind : List Nat) (b : Nat) : b ∈ addIndex ind b := by
+  unfold addIndex
+  split
+  · rename_i h; simpa using h
+  · simp
+
+theorem addIndex_subset (ind : List Nat) (b x : Nat) (h : x ∈ ind) : x ∈ addIndex ind b := by
+  unfold addIndex; split
+  · exact h
+  · simp [h]
+
+/-- phase 1 keeps the list duplicate-free and at most k long; if it made a step, the last bucket is in the list -/
+theorem chainPhase_card (H : Hash) (n k : Nat) (hk : k ≤ n) :
+    ∀ (s : Nat) (nx : BitVec 32) (last : Nat) (ind : List Nat), ind.Nodup → ind.length ≤ k → (ind = [] ∨ last ∈ ind) →
+      ∀ ind' last', chainPhase H n k s nx last ind = .ok (ind', last') →
+        ind'.Nodup ∧ ind'.length ≤ k ∧ (ind' = [] ∨ last' ∈ ind') ∧ (0 < s → 0 < k → ind' ≠ []) := by
+  intro s
+  induction s with
+  | zero =>
+    intro nx last ind hnd hlen hl ind' last' h
+    simp [chainPhase] at h
+    obtain ⟨rfl, rfl⟩ := h
+    exact ⟨hnd, hlen, hl, by omega⟩
+  | succ s ih =>
+    intro nx last ind hnd hlen hl ind' last' h
+    unfold chainPhase at h
+    by_cases hge : ind.length ≥ k
+    · rw [if_pos hge] at h
+      simp at h
+      obtain ⟨rfl, rfl⟩ := h
+      refine ⟨hnd, hlen, hl, ?_⟩
+      intro _ hk0 hempty; subst hempty; simp at hge; omega
+    · rw [if_neg hge] at h
+      have hn : n ≠ 0 := by omega
+      rw [if_neg hn] at h
+      have hlen' : (addIndex ind (nx.toNat % n)).length ≤ k := by
+        have := addIndex_length_le ind (nx.toNat % n); omega
+      obtain ⟨h1, h2, h3, _⟩ := ih (H.next nx) (nx.toNat % n) (addIndex ind (nx.toNat % n)) (addIndex_nodup _ _ hnd) hlen'
+        (Or.inr (addIndex_mem_self _ _)) ind' last' h
+      refine ⟨h1, h2, h3, ?_⟩
+      intro _ _ hempty
+      rcases h3 with h3 | h3
+      · -- ind' = [] is impossible: the list only grows
+        have hsub : ∀ x ∈ addIndex ind (nx.toNat % n), x ∈ ind' := chainPhase_mono H n k s _ _ _ ind' last' h
+        have := hsub _ (addIndex_mem_self ind (nx.toNat % n))
+        rw [hempty] at this; simp at this
+      · rw [hempty] at h3; simp at h3
+where
+  chainPhase_mono (H : Hash) (n k : Nat) : ∀ (s : Nat) (nx : BitVec 32) (last : Nat) (ind ind' : List Nat) (last' : Nat),
+      chainPhase H n k s nx last ind = .ok (ind', last') → ∀ x ∈ ind, x ∈ ind' := by
+    intro s
+    induction s with
+    | zero => intro nx last ind ind' last' h; simp [chainPhase] at h; obtain ⟨rfl, rfl⟩ := h; exact fun x hx => hx
+    | succ s ih =>
+      intro nx last ind ind' last' h
+      unfold chainPhase at h
+      split at h
+      · simp at h; obtain ⟨rfl, rfl⟩ := h; exact fun x hx => hx
+      · split at h
+        · simp at h
+        · intro x hx; exact ih _ _ _ _ _ h x (addIndex_subset _ _ _ hx)
+
+/-- phase 2 keeps the list duplicate-free and at most k long, and records which offsets it has tried -/
+theorem probePhase_card (n k last : Nat) (hk : k ≤ n) :
+    ∀ (s off : Nat) (ind : List Nat), ind.Nodup → ind.length ≤ k →
+      (∀ o, 1 ≤ o → o < off → ((last + o) % two32) % n ∈ ind) →
+      ∀ ind', probePhase n k last s off ind = .ok ind' →
+        ind'.Nodup ∧ ind'.length ≤ k ∧ (∀ x ∈ ind, x ∈ ind') ∧
+        (k ≤ ind'.length ∨ ∀ o, 1 ≤ o → o < off + s → ((last + o) % two32) % n ∈ ind') := by
+  intro s
+  induction s with
+  | zero =>
+    intro off ind hnd hlen hoff ind' h
+    simp [probePhase] at h; subst h
+    exact ⟨hnd, hlen, fun x hx => hx, Or.inr (by simpa using hoff)⟩
+  | succ s ih =>
+    intro off ind hnd hlen hoff ind' h
+    unfold probePhase at h
+    by_cases hge : ind.length ≥ k
+    · rw [if_pos hge] at h; simp at h; subst h
+      exact ⟨hnd, hlen, fun x hx => hx, Or.inl hge⟩
+    · rw [if_neg hge] at h
+      have hn : n ≠ 0 := by omega
+      rw [if_neg hn] at h
+      have hlen' : (addIndex ind (((last + off) % two32) % n)).length ≤ k := by
+        have := addIndex_length_le ind (((last + off) % two32) % n); omega
+      have hoff' : ∀ o, 1 ≤ o → o < off + 1 → ((last + o) % two32) % n ∈ addIndex ind (((last + off) % two32) % n) := by
+        intro o h1 h2
+        by_cases ho : o = off
+        · subst ho; exact addIndex_mem_self _ _
+        · exact addIndex_subset _ _ _ (hoff o h1 (by omega))
+      obtain ⟨h1, h2, h3, h4⟩ := ih (off + 1) _ (addIndex_nodup _ _ hnd) hlen' hoff' ind' h
+      refine ⟨h1, h2, fun x hx => h3 x (addIndex_subset _ _ _ hx), ?_⟩
+      rcases h4 with h4 | h4
+      · exact Or.inl h4
+      · right; intro o ho1 ho2; exact h4 o ho1 (by omega)
+
+/-- every residue other than `last` is reached by one of the offsets 1 … n-1 -/
+theorem residue_reached (n last r : Nat) (hl : last < n) (hr : r < n) (hne : r ≠ last) (h31 : n ≤ 2147483648) :
+    ∃ o, 1 ≤ o ∧ o < n ∧ ((last + o) % two32) % n = r := by
+  by_cases hge : r > last
+  · refine ⟨r - last, by omega, by omega, ?_⟩
+    have : last + (r - last) = r := by omega
+    have e1 : r % two32 = r := Nat.mod_eq_of_lt (by unfold two32; omega)
+    rw [this, e1, Nat.mod_eq_of_lt hr]
+  · refine ⟨r + n - last, by omega, by omega, ?_⟩
+    have : last + (r + n - last) = r + n := by omega
+    have e2 : (r + n) % two32 = r + n := Nat.mod_eq_of_lt (by unfold two32; omega)
+    rw [this, e2, Nat.add_mod_right, Nat.mod_eq_of_lt hr]
+
+/-- the repaired bucketIndices returns EXACTLY min(k, numBuckets) DISTINCT bucket indices — what Insert/Delete need — for
+    every hash function (numBuckets < 2^31, at least one chain step) -/
+theorem bucketIndicesNew_card (c : Cfg) (hk : c.k < two32) (hmc : 0 < c.maxChain) (H : Hash) (numBuckets : Nat)
+    (hnb : numBuckets ≤ 2147483648) (hash : BitVec 64) (ind : List Nat)
+    (h : bucketIndicesNew c H numBuckets hash = .ok ind) :
+    ind.Nodup ∧ ind.length = min c.k numBuckets := by
+  unfold bucketIndicesNew at h
+  simp only at h
+  have hmod : numBuckets % two32 = numBuckets := Nat.mod_eq_of_lt (by unfold two32; omega)
+  rw [hmod, Nat.mod_eq_of_lt hk] at h
+  generalize hkk : (if c.k > numBuckets then numBuckets else c.k) = k at h
+  have hk' : k ≤ numBuckets := by rw [← hkk]; split <;> omega
+  have hkmin : k = min c.k numBuckets := by rw [← hkk]; split <;> omega
+  obtain ⟨ind1, last1, h1, hlt1, hl1⟩ := chainPhase_spec H numBuckets k hk' c.maxChain (H.first hash) 0 [] (by simp) (by omega)
+  rw [h1] at h
+  simp only at h
+  obtain ⟨hnd1, hlen1, hlast1, hne1⟩ := chainPhase_card H numBuckets k hk' c.maxChain (H.first hash) 0 [] (by simp) (by simp) (Or.inl rfl) ind1 last1 h1
+  obtain ⟨hnd, hlen, hsub, hfull⟩ := probePhase_card numBuckets k last1 hk' (numBuckets - 1) 1 ind1 hnd1 hlen1 (by intro o h1 h2; omega) ind h
+  refine ⟨hnd, ?_⟩
+  rw [← hkmin]
+  rcases hfull with hfull | hfull
+  · omega
+  · -- all offsets tried: every residue is in the list, so it has at least numBuckets ≥ k elements
+    by_cases hk0 : k = 0
+    · omega
+    · have hne : ind1 ≠ [] := hne1 hmc (by omega)
+      have hlast_in : last1 ∈ ind1 := by rcases hlast1 with h | h; exact absurd h hne; exact h
+      have hn0 : numBuckets ≠ 0 := by omega
+      have hlastlt : last1 < numBuckets := by rcases hl1 with h | h; exact absurd h hn0; exact h
+      have hall : ∀ r ∈ List.range numBuckets, r ∈ ind := by
+        intro r hr
+        have hr' : r < numBuckets := List.mem_range.mp hr
+        by_cases hrl : r = last1
+        · subst hrl; exact hsub _ hlast_in
+        · obtain ⟨o, ho1, ho2, ho3⟩ := residue_reached numBuckets last1 r hlastlt hr' hrl hnb
+          rw [← ho3]; exact hfull o ho1 (by omega)
+      have := List.Nodup.length_le_of_subset List.nodup_range hall
+      simp at this
+      omega
 
 end IbltLemmas
 
